@@ -66,13 +66,14 @@ fn record(args: &Args) {
     let tier = args.get("tier", "quick");
     let out = args.get("out", "trace.ndjson");
     match scen.as_str() {
-        "c01" | "c02" | "c03" | "c04" | "c05" | "c06" | "c16" => {
+        "c01" | "c02" | "c03" | "c04" | "c04eof" | "c05" | "c06" | "c16" => {
             let mut s = api::Sess::new(&out);
             match scen.as_str() {
                 "c01" => scen_api::c01(&mut s, seed, &tier),
                 "c02" => scen_api::c02(&mut s, seed, &tier),
                 "c03" => scen_api::c03(&mut s, seed, &tier),
                 "c04" => scen_api::c04(&mut s, seed, &tier),
+                "c04eof" => scen_api::c04_eof(&mut s, seed, &tier),
                 "c05" => scen_api::c05(&mut s, seed, &tier),
                 "c06" => scen_api::c06(&mut s, seed, &tier),
                 _ => scen_api::c16(&mut s, seed, &tier),
